@@ -18,6 +18,7 @@ type fieldAnn struct {
 	kind   string // guarded | immutable | atomic | racy | owner
 	lock   string // path relative to the struct, e.g. "Mutex" or "s.Mutex"
 	reason string
+	writer string // single_writer: the only function allowed to store to the field
 }
 
 type StructAnn struct {
@@ -96,10 +97,11 @@ type Annotations struct {
 	errs    []string
 	lemmas  []specLine
 	immutableHV map[string]bool
+	singleWriterHV map[string]string // heap var -> only function that writes it
 }
 
 func newAnnotations() *Annotations {
-	return &Annotations{structs: map[string]*StructAnn{}, funcs: map[string]*FuncContract{}, ifaces: map[string]*FuncContract{}, byLock: map[string][]guardedField{}, immutableHV: map[string]bool{}}
+	return &Annotations{structs: map[string]*StructAnn{}, funcs: map[string]*FuncContract{}, ifaces: map[string]*FuncContract{}, byLock: map[string][]guardedField{}, immutableHV: map[string]bool{}, singleWriterHV: map[string]string{}}
 }
 
 func (a *Annotations) isNullable(typeKey, field string) bool {
@@ -336,6 +338,16 @@ func (a *Annotations) structClause(cs *StructAnn, word, rest string, sl specLine
 		for _, f := range strings.Fields(rest[i+1:]) {
 			cs.fields[f] = &fieldAnn{kind: "guarded", lock: lock}
 		}
+	case "single_writer":
+		// single_writer <func> <lockpath>: fields   -- guarded by the lock, written only by <func>
+		i := strings.Index(rest, ":")
+		hdr := strings.Fields(rest[:max(i, 0)])
+		if i < 0 || len(hdr) != 2 {
+			return fmt.Errorf("single_writer <func> <lock>: fields")
+		}
+		for _, f := range strings.Fields(rest[i+1:]) {
+			cs.fields[f] = &fieldAnn{kind: "guarded", lock: hdr[1], writer: hdr[0]}
+		}
 	case "immutable", "atomic", "owner":
 		for _, f := range strings.Fields(rest) {
 			cs.fields[f] = &fieldAnn{kind: strings.TrimSuffix(word, ":")}
@@ -507,6 +519,9 @@ func (g *Gen) resolveAnnotations() {
 			}
 			if fa.kind != "guarded" {
 				continue
+			}
+			if fa.writer != "" {
+				a.singleWriterHV["F:"+g.typeKey(T)+"."+f] = fa.writer
 			}
 			lockKey, own := g.resolveLockPath(T, fa.lock)
 			if lockKey == "" {
